@@ -10,21 +10,6 @@ Close Scope Q_scope.
 Open Scope Z_scope.
 Open Scope list_scope.
 
-(* ---- adjacency used on the observed set: plain 26-adjacency (no wrap-around), except that the voxel of an end point with
-   longitude exactly 180 — which the code folds onto column 0 — also touches the last column (x = 2^h - 1), as it does on the
-   globe. `folds` = the voxels of such end points. ---- *)
-Definition unfold_x (a : eid) : eid := {| eh := eh a; ex := ex a + 2 ^ eh a; ey := ey a; ev := ev a; ef := ef a |}.
-Definition adjF (folds : list eid) (a b : eid) : Prop :=
-  adjP a b \/ (In a folds /\ adjP (unfold_x a) b) \/ (In b folds /\ adjP a (unfold_x b)).
-Definition adjFb (folds : list eid) (a b : eid) : bool :=
-  adjPb a b || (memb eid_eqb a folds && adjPb (unfold_x a) b) || (memb eid_eqb b folds && adjPb a (unfold_x b)).
-Lemma adjFb_spec folds a b : adjFb folds a b = true <-> adjF folds a b.
-Proof.
-  unfold adjFb, adjF. rewrite !orb_true_iff, !andb_true_iff, !adjPb_spec, !(memb_In eid_eqb eid_eqb_spec). tauto.
-Qed.
-Lemma adjF_nil a b : adjF [] a b <-> adjP a b.
-Proof. unfold adjF. cbn. tauto. Qed.
-
 (* ---- breadth-first search over the observed voxels ---- *)
 Section BFS.
   Variable adjb : eid -> eid -> bool.
@@ -123,6 +108,8 @@ Definition tol_alt (a b : Q) : Q :=
   let m := qmax (qabs a) (qabs b) in
   if Qle_bool (pow2q (-900)) m then (pow2q (-44) * m)%Q else pow2q (-1000).
 Definition tol_lat : Q := pow2q (-33).
+(* strict latitude band: float rounding of the midpoints only (64 levels of one ulp(90) = 2^-46 degrees) *)
+Definition tol_lat0 : Q := pow2q (-40).
 
 Record segq := { q_ls : Q; q_le : Q; q_as : Q; q_ae : Q; q_ps : Q; q_pe : Q }.   (* lon, alt, lat (phi) of start and end *)
 Definition seg_of (s e : point) : option segq :=
@@ -147,13 +134,14 @@ Section Slab.
   (* the voxel passes if for a turn k in {0, 1} (k = 1 only matters for lon = 180, which the code folds onto -180) the three
      slabs have a common parameter t in [0,1]; the latitude slab is tested on the rows of the two extreme latitudes of the
      common longitude/altitude interval, widened by tol_lat (the row is monotone in the latitude) *)
+  Variable tl : Q.                         (* latitude tolerance: tol_lat0 (strict) or tol_lat (the SetLat cut excused) *)
   Definition slab_voxel (g : segq) (h v : Z) (i : eid) : bool :=
     existsb (fun k =>
       match t_meet (Some (0, 1)%Q) (t_meet (t_lon g h (ex i) k) (t_alt g v (ef i))) with
       | Some (t0, t1) =>
           let la := at_t (q_ps g) (q_pe g) t0 in
           let lb := at_t (q_ps g) (q_pe g) t1 in
-          match rowf (q2f (qmax la lb + tol_lat)%Q), rowf (q2f (qmin la lb - tol_lat)%Q) with
+          match rowf (q2f (qmax la lb + tl)%Q), rowf (q2f (qmin la lb - tl)%Q) with
           | Some r1, Some r2 => (r1 <=? ey i) && (ey i <=? r2)
           | _, _ => false
           end
@@ -268,12 +256,12 @@ Definition in_alt_box (g : segq) (v f : Z) (t : Q) : Prop :=
   inject_Z f * pow2q (25 - v) - tol_alt (q_as g) (q_ae g) <= at_t (q_as g) (q_ae g) t /\
   at_t (q_as g) (q_ae g) t <= inject_Z (f + 1) * pow2q (25 - v) + tol_alt (q_as g) (q_ae g).
 
-Theorem slab_voxel_sound rowf g h v i : slab_voxel rowf g h v i = true ->
+Theorem slab_voxel_sound rowf tl g h v i : slab_voxel rowf tl g h v i = true ->
   exists (k : Z) (t0 t1 : Q), (k = 0 \/ k = 1)%Z /\ 0 <= t0 /\ t0 <= t1 /\ t1 <= 1 /\
     (forall t, t0 <= t <= t1 -> in_lon_box g h (ex i) k t /\ in_alt_box g v (ef i) t) /\
     exists r1 r2,
-      rowf (q2f (qmax (at_t (q_ps g) (q_pe g) t0) (at_t (q_ps g) (q_pe g) t1) + tol_lat)) = Some r1 /\
-      rowf (q2f (qmin (at_t (q_ps g) (q_pe g) t0) (at_t (q_ps g) (q_pe g) t1) - tol_lat)) = Some r2 /\
+      rowf (q2f (qmax (at_t (q_ps g) (q_pe g) t0) (at_t (q_ps g) (q_pe g) t1) + tl)) = Some r1 /\
+      rowf (q2f (qmin (at_t (q_ps g) (q_pe g) t0) (at_t (q_ps g) (q_pe g) t1) - tl)) = Some r2 /\
       (r1 <= ey i <= r2)%Z.
 Proof.
   unfold slab_voxel. rewrite existsb_exists. intros (k & Hk & H).
@@ -281,8 +269,8 @@ Proof.
   destruct (t_meet_sound _ _ _ _ M) as (a0 & a1 & b0 & b1 & E1 & E2 & A0 & A1 & B0 & B1 & L).
   injection E1 as <- <-.
   destruct (t_meet_sound _ _ _ _ E2) as (x0 & x1 & f0 & f1 & X & F & X0 & X1 & F0 & F1 & L2).
-  destruct (rowf (q2f (qmax (at_t (q_ps g) (q_pe g) t0) (at_t (q_ps g) (q_pe g) t1) + tol_lat))) as [r1|] eqn:R1; [|discriminate].
-  destruct (rowf (q2f (qmin (at_t (q_ps g) (q_pe g) t0) (at_t (q_ps g) (q_pe g) t1) - tol_lat))) as [r2|] eqn:R2; [|discriminate].
+  destruct (rowf (q2f (qmax (at_t (q_ps g) (q_pe g) t0) (at_t (q_ps g) (q_pe g) t1) + tl))) as [r1|] eqn:R1; [|discriminate].
+  destruct (rowf (q2f (qmin (at_t (q_ps g) (q_pe g) t0) (at_t (q_ps g) (q_pe g) t1) - tl))) as [r2|] eqn:R2; [|discriminate].
   apply andb_true_iff in H. destruct H as [H1 H2]. apply Z.leb_le in H1, H2.
   exists k, t0, t1. split; [destruct Hk as [<-|[<-|[]]]; [now left|now right]|]. split; [exact A0|]. split; [exact L|]. split; [exact A1|]. split.
   - intros t [T0 T1]. split.
